@@ -305,6 +305,31 @@ Section Ds.
   Definition dict_of_pairs (l : list (string * pv)) : dict :=
     fold_left (fun acc kv => dict_insert (fst kv) (snd kv) acc) l [].
 
+  (** What [load (save d)] returns for a well-formed [d] (theorem [decode_encode_gen]): every lib
+      string and key trimmed of XML white space, every dictionary rebuilt by insertion (keys that
+      collide after trimming collapse). *)
+  Fixpoint trim_pv (v : pv) : pv :=
+    match v with
+    | PStr s => PStr (trim s)
+    | PArr l => PArr ((fix go (l : list pv) : list pv :=
+                         match l with [] => [] | x :: r => trim_pv x :: go r end) l)
+    | PDict l => PDict (dict_of_pairs
+                          ((fix go (l : list (string * pv)) : list (string * pv) :=
+                              match l with [] => [] | (k, x) :: r => (trim k, trim_pv x) :: go r end) l))
+    | _ => v
+    end.
+  Definition trim_dict (l : dict) : dict :=
+    match trim_pv (PDict l) with PDict l' => l' | _ => l end.
+  Definition trim_instance (i : instance) : instance :=
+    {| i_familyname := i_familyname i; i_stylename := i_stylename i; i_name := i_name i;
+       i_filename := i_filename i; i_postscriptfontname := i_postscriptfontname i;
+       i_stylemapfamilyname := i_stylemapfamilyname i; i_stylemapstylename := i_stylemapstylename i;
+       i_location := i_location i; i_lib := trim_dict (i_lib i) |}.
+  Definition ds_trim (d : doc) : doc :=
+    {| ds_format := ds_format d; ds_axes := ds_axes d; ds_rules := ds_rules d;
+       ds_sources := ds_sources d; ds_instances := map trim_instance (ds_instances d);
+       ds_lib := trim_dict (ds_lib d) |}.
+
   Definition tag_is (a b : string) : bool := String.eqb a b.
 
   (** serde_xml_plist.rs [read_xml_value] / [DictWrapper] / [ArrayWrapper] on one element.
